@@ -93,6 +93,8 @@ def setup():
               FileHandler=FileHandler, FileInfo=FileInfo,
               Collocations=Collocations, Collocator=Collocator, xr=xr,
               earth_radius=float(cst.earth_radius))
+    from sim.seams import typhon_state
+    _T["state"] = typhon_state()
 
 
 class InjectedReadError(OSError):
@@ -351,6 +353,7 @@ OUT_TMPL = ("out/{year}{month}{day}{hour}{minute}{second}-{end_year}{end_month}"
 
 # ------------------------------------------------------------------- the run
 def run_one(tape, only=None):
+    _T["state"].restore()      # each run models a fresh interpreter
     global ST
     res = new_result()
     w = gen_workload(tape)
